@@ -8,7 +8,8 @@ from .ctx import Ctx
 from .model import AnalysisError, ClassInfo, FunctionInfo
 from .report import RuleResult
 from .terms import (alternatives, expand_outcomes, Attr, Call, ClassRef, Const, EnumMember, Evaluator, Ext, FuncRef, Op, Outcome, Sub, Sym, Term,
-                    default_inline, guards_repr, norm_guards, walk)
+                    default_inline, flat_guards, guards_repr, norm_guards, unglobal, walk)
+from .util import call_name
 
 
 def _cli_eval(ctx: Ctx) -> Evaluator:
@@ -71,6 +72,8 @@ def C1(ctx: Ctx) -> RuleResult:
             key = f'main:except {"+".join(names)}'
             prints = [e for e in o.effects if isinstance(e, Call) and _is_print(e)]
             if o.kind == 'return' and isinstance(o.value, Const) and isinstance(o.value.value, int) and not isinstance(o.value.value, bool) and o.value.value != 0:
+                if o.value.value != 1:
+                    r.fail(key + ':status', f'handler returns {o.value.value}: the documented exit status of a failed parse is 1', fi.where, 1, o.value.value)
                 if prints:
                     r.ok(f'{key} -> prints, returns {o.value.value}')
                 else:
@@ -248,6 +251,14 @@ def C3(ctx: Ctx) -> RuleResult:
                 if e.kw('file') is not None:
                     r.fail('main:json-stdout', f'JSON is printed to {e.kw("file")!r}, not standard output', fi.where)
                 data = d.args[0] if d.args else None
+                # the document is printed exactly on the paths where the output format option equals the JSON format name
+                want_json = None
+                for g_, pol_ in flat_guards(o.guards):
+                    if isinstance(g_, Op) and g_.op in ('==', '!=') and len(g_.args) == 2 and any(isinstance(x_, Call) and call_name(x_) == 'get' and x_.args[:1] == (Const('output'),) for a_ in g_.args for x_ in walk(a_)) \
+                            and any(isinstance(unglobal(a_), Const) and unglobal(a_).value == 'json' for a_ in g_.args):
+                        want_json = (g_.op == '==') == pol_
+                if want_json is not True:
+                    r.fail('main:json-option', 'the JSON document is printed on a path that has not established that the requested output format is "json"' + (' (it is printed when another format, or none, was requested)' if want_json is False else ''), fi.where)
                 ad = data if isinstance(data, Call) and isinstance(data.func, Ext) and data.func.name.endswith('asdict') else None
                 if ad is None:
                     r.fail('main:json-asdict', f'json.dumps is not applied to attrs.asdict(result, ...): {str(data)[:100]}', fi.where)
@@ -325,12 +336,61 @@ def C3(ctx: Ctx) -> RuleResult:
             r.ok(desc)
             continue
         r.fail(f'{ser.name}:other', f'unexpected mapping {desc}', ser.where)
+    # the mapping as a truth table over: is a float / is infinite / is NaN (Enum members aside)
+    def tv(t: Term, m_) -> Optional[bool]:
+        if isinstance(t, Op) and t.op == 'not' and len(t.args) == 1:
+            v_ = tv(t.args[0], m_)
+            return None if v_ is None else not v_
+        if isinstance(t, Op) and t.op in ('and', 'or'):
+            vs_ = [tv(a_, m_) for a_ in t.args]
+            if t.op == 'and':
+                return False if any(v_ is False for v_ in vs_) else (None if any(v_ is None for v_ in vs_) else True)
+            return True if any(v_ is True for v_ in vs_) else (None if any(v_ is None for v_ in vs_) else False)
+        if _isinstance_of(t, value, {'enum.Enum', 'Enum'}):
+            return False
+        if _isinstance_of(t, value, {'float'}):
+            return m_['F']
+        if isinstance(t, Call) and isinstance(t.func, Ext) and t.args == (value,):
+            n_ = t.func.name.split('.')[-1]
+            if n_ == 'isinf':
+                return m_['I']
+            if n_ == 'isnan':
+                return m_['N']
+            if n_ == 'isfinite':
+                return not (m_['I'] or m_['N'])
+        return None
+    for F_, I_, N_ in ((False, False, False), (True, False, False), (True, True, False), (True, False, True)):
+        m_ = {'F': F_, 'I': I_, 'N': N_}
+        for o in souts:
+            gv = [tv(t, m_) for t, _ in o.guards]
+            if any(v_ is None for v_ in gv) or any(v_ != pol for v_, (_, pol) in zip(gv, o.guards)):
+                continue
+            want_none = F_ and (I_ or N_)
+            got_none = o.kind == 'return' and o.value == Const(None)
+            if want_none != got_none:
+                what = 'an infinite float' if I_ else 'NaN' if N_ else 'a finite float' if F_ else 'a value that is not a float'
+                r.fail(f'{ser.name}:nonfinite-table', f'{what} is mapped to {str(o.value)[:30]}: the JSON document must render infinite and NaN numbers (and only those) as null', ser.where)
+            break
     if not enum_ok:
         r.fail(f'{ser.name}:enum-missing', 'no path maps Enum members to their value', ser.where)
     if not nonfinite_ok:
         r.fail(f'{ser.name}:nonfinite-missing', 'no path maps non-finite floats to None (json.dumps would print Infinity/NaN)', ser.where)
     if not ident_ok:
         r.fail(f'{ser.name}:identity-missing', 'no path passes ordinary values through', ser.where)
+    # the option that requests the document exists: add_argument(..., '--output' / dest 'output', choices containing the format)
+    pa = ctx.model.module('hpl.cli', 'C3')
+    has_opt = False
+    for f0 in pa.functions.values():
+        for n_ in ast.walk(f0.node):
+            if isinstance(n_, ast.Call) and isinstance(n_.func, ast.Attribute) and n_.func.attr == 'add_argument':
+                names_ = [a_.value for a_ in n_.args if isinstance(a_, ast.Constant) and isinstance(a_.value, str)]
+                dest = next((k.value.value for k in n_.keywords if k.arg == 'dest' and isinstance(k.value, ast.Constant)), None)
+                if '--output' in names_ or dest == 'output':
+                    ch = next((k.value for k in n_.keywords if k.arg == 'choices'), None)
+                    if ch is None or 'FORMAT_JSON' in ast.unparse(ch) or "'json'" in ast.unparse(ch):
+                        has_opt = True
+    if not has_opt:
+        r.fail('parse_arguments:output-option', 'no command line option sets args["output"] (-o/--output with the choice "json"): the JSON document can never be requested', pa.relpath)
     # closure of field types
     _closure(ctx, r)
     _stored_enum_members(ctx, r)
